@@ -41,7 +41,8 @@ POOL = [
 COMP = dict(POOL)
 NAMES = [n for n, c in POOL]
 KEYS = [0, 1, 2]
-FPOOL = {"H2O": {1: 2, 8: 1}, "H+": {1: 1, 0: 1}, "OH-": {1: 1, 8: 1, 0: -1}, "H2": {1: 2}, "O2": {8: 2}, "H2O2": {1: 2, 8: 2}, "Fe+2": {26: 1, 0: 2}, "Fe+3": {26: 1, 0: 3}, "e-": {0: -1}}
+FPOOL = {"H2O": {1: 2, 8: 1}, "H+": {1: 1, 0: 1}, "OH-": {1: 1, 8: 1, 0: -1}, "H2": {1: 2}, "O2": {8: 2}, "H2O2": {1: 2, 8: 2}, "Fe+2": {26: 1, 0: 2}, "Fe+3": {26: 1, 0: 3}, "e-": {0: -1},
+         "P2W18O62-10": {15: 2, 74: 18, 8: 62, 0: -10}, "P2W18O62-12": {15: 2, 74: 18, 8: 62, 0: -12}}  # multi-digit charges
 COEF = [(r, p) for r in (0, 1, 2) for p in (0, 1, 2) if (r, p) != (0, 0)]
 
 # reactions for the list layer: (reac, prod)
@@ -219,6 +220,22 @@ def check_invariants(res, rs, rxn_dicts, names, comp, case, with_ode=True):
 
     bad = []
     res.evaluations += 1
+    # variants are derived from the accepted system's reactions by copy-then-modify (every part of the copy is emptied); the
+    # accepted system itself stays the system that was accepted
+    try:
+        for rxn in rs.rxns:
+            cp = rxn.copy()
+            for part in ("reac", "prod", "inact_reac", "inact_prod"):
+                d_ = getattr(cp, part)
+                d_.clear()
+                d_["Zz"] = 7
+        for rxn, rx in zip(rs.rxns, rxn_dicts):
+            want = (dict(rx[0]), dict(rx[1]), dict(rx[2]) if len(rx) > 2 else {}, dict(rx[3]) if len(rx) > 2 else {})
+            have = (dict(rxn.reac), dict(rxn.prod), dict(rxn.inact_reac), dict(rxn.inact_prod))
+            if have != want:
+                bad.append(("reaction changed by editing its copy", have, want))
+    except Exception as e:
+        bad.append(("copy-then-modify raised", type(e).__name__, None))
     inexact = any(isinstance(v, float) for n in names for v in comp[n].values())
     B_exp = [[comp[n].get(k, 0) for n in names] for k in sorted({k for n in names for k in comp[n]})]
     keys_exp = sorted({k for n in names for k in comp[n]})
@@ -345,6 +362,29 @@ def check_integration(res, rxn_dicts, names, comp, kpat, case):
         res.extra["max_concentration_change"] = max(res.extra.get("max_concentration_change", 0.0), moved)
     else:
         res.violation("C05|integration|invariant-drift", "system %r with k=%r: relative drift of B.y = %r" % (rxn_dicts, params, dev), case, dev, "< 1e-8")
+        return
+    # the same system integrated stretch by stretch (chained_parameter_variation: three durations, the end state of one
+    # stretch is the start of the next), the initial state given as a dict whose keys are written in another order than
+    # the system's substances
+    if len(names) >= 2:
+        from chempy.kinetics.ode import chained_parameter_variation
+
+        res.evaluations += 1
+        try:
+            c0r = OrderedDict((n, c0[n]) for n in reversed(names))
+            tout, cout, info = chained_parameter_variation(odesys, [0.1, 0.9, 9.0], c0r, {}, {}, integrate_kwargs=dict(atol=1e-12, rtol=1e-12, integrator="scipy"))
+            yc = np.asarray(cout, dtype=float)
+            totc = yc @ B.T
+            scalec = np.abs(yc) @ np.abs(B).T + 1e-300
+            devc = float(np.max(np.abs(totc - tot[0]) / scalec))
+            endc = float(np.max(np.abs(yc[-1] - y[-1]) / (np.abs(y[-1]) + 1e-9)))
+            okc = devc < 1e-8 and endc < 1e-3  # (two adaptive integrations of the same problem: agreement to the solver's global error)
+        except Exception as e:
+            okc, devc, endc = False, "EXC %s: %s" % (type(e).__name__, e), None
+        res.outcomes["chained-integration-conserves" if okc else "chained-integration-DRIFTS"] += 1
+        if not okc:
+            res.violation("C05|integration|chained|invariant-drift", "system %r with k=%r integrated in three stretches from %r: relative drift of B.y = %r, end state differs from the one-stretch result by %r" % (
+                rxn_dicts, params, dict(c0r), devc, endc), case, [devc, endc], "< 1e-8, < 1e-3")
 
 
 # ------------------------------------------------------------------------------------------------ chunks
